@@ -11,7 +11,8 @@ REQUIRED = ["CifModel.C15_skip_depth_balanced", "CifModel.C15_skip_depth_nonneg"
             "CifModel.C15_layout_stop_semantics", "CifModel.C15_layout_rendered",
             "CifModel.C15_dup_structural_any", "CifModel.C15_dup_header_dropped_column", "CifModel.C15_dup_layout",
             "CifModel.C15_start_only_callbacks", "CifModel.C15_start_only_callbacks_layout",
-            "CifModel.C15_dup_is_plain_without_duplicates", "CifModel.C15_dup_stop_semantics_without_duplicates"]
+            "CifModel.C15_dup_is_plain_without_duplicates", "CifModel.C15_dup_stop_semantics_without_duplicates",
+            "CifModel.C15_dup_stop_semantics_store", "CifModel.C15_dup_cut_extends_mirror"]
 GEN = ["ErrCodes"]
 FAMILIES = ["pcb"]
 TRUSTED_BASE = [
@@ -71,10 +72,12 @@ PARTIAL = [
     "(C15_dup_is_plain_without_duplicates), so every document-level theorem transfers; all-continue: callbacks = dupEvents, store "
     "= dupDenote (C15_dup_all_continue_mirror, headers without repeats); duplicate loop-header names: C15_dup_header_dropped_column "
     "(all-continue, parse_loop level: error callback behind the data-name callback of every dropped name, loop_start / packet_end "
-    "/ stored loop with the retained names and values, NO item handler for a dropped column).  NOT proved: a declarative "
-    "(interpreter-free) characterisation of callbacks and store for documents WITH duplicates under skipping / stopping programs "
-    "(what counts as a duplicate then depends on what the program let the parser store) — covered by "
-    "xDocD + the correspondence run with an oracle that restates the recovery",
+    "/ stored loop with the retained names and values, NO item handler for a dropped column); the STORE and the return value for "
+    "EVERY program and any duplicates: C15_dup_stop_semantics_store (= cDocD, Spec/TraversalDupCut.lean: the document walked "
+    "threading the handler count and the content the container holds; hypothesis: the model stays in its domain, i.e. no loop "
+    "header met loses all its names); agrees with dupDenote for all-continue handlers (C15_dup_cut_extends_mirror).  NOT proved: "
+    "an interpreter-free formula for the CALLBACKS of documents with duplicates under skipping / stopping programs (they are "
+    "given by xDocD; which names are duplicates depends on what the program let the parser store)",
     "recovery paths with handler code (CIF_PARTIAL_PACKET, CIF_EMPTY_LOOP, CIF_NULL_LOOP, CIF_MISSING_VALUE, "
     "CIF_UNEXPECTED_VALUE under handler programs): model layer Model/ParseCBRec.lean + correspondence + oracle, no theorem",
 ]
@@ -86,12 +89,12 @@ LEVEL_TEXT = ("Proof about the executable token-level models ParseCB.parseCB / p
               "all-continue callbacks = document order events and store = denotation; for EVERY program store = denotation of the document "
               "with the bypassed sub-trees removed and cut at the stopping answer (cutDoc), return value = that answer if positive else "
               "CIF_OK; for programs steering from the start callbacks the delivered callbacks = the formula evDoc. Duplicates (DUP_* "
-              "diagnostics): for every program the parse = the structural interpreter xDocD; = the plain model on duplicate-free documents; "
+              "diagnostics): for every program the parse = the structural interpreter xDocD, store and result = cDocD; = the plain model on duplicate-free documents; "
               "all-continue mirror incl. dropped loop columns. The models are tied to src/parser.c by differential execution in storing and "
               "syntax-only mode with an independent implementation-level oracle that restates C15, duplicates and token-level recoveries "
               "under handler programs included.")
 LEVEL_NOTE = ("Layout is proved at the token level (tokens carry their layout); that the scanner attaches exactly the rendered separators is "
-              "correspondence. Duplicates under skipping / stopping programs: structural interpreter + correspondence, no closed formula. "
+              "correspondence. Duplicates under skipping / stopping programs: store and result characterised (cDocD), callbacks through the structural interpreter. "
               "Recovery paths with handler code (partial packet etc.): model layer + correspondence only. F33 fixed by 43d0bb7. Trusted: "
               "Lean kernel, model transcription (checked by correspondence), Spec/Traversal*.lean (Doc, docEvents, denote, prunedDoc, cutDoc, "
               "evDoc, dupEvents), renderer/oracle in tools/gen/pcb.py, harness.")
